@@ -35,6 +35,9 @@ Translation rules (the trusted part of the tie; everything else is checked by Le
   `X is None`, keyword flags with a literal value (`lc_pinv`) and `cls._intern(<int literal>)` (-> `from_int`) are decided
   statically per specialisation.  `n.bit_length()` -> `NumTh.bitLength`; `x << k`, `x >> k`, `x ** k` -> `pyShl`, `pyShr`,
   `pyPow` (a non-literal shift count first raises ValueError if negative); `x & 1` -> `x % 2`.
+* class `BinaryPolynomial` (static methods on non-negative ints, names `b_*`): `x ^ y`, `x | y` -> `pyXor`, `pyOr` (bitwise
+  operations on the natural numbers `x.toNat`, `y.toNat`: the bitmasks are non-negative), `a is b or a == b` -> `a = b`
+  (identity of ints implies equality).  Its inherited `_powmod` is not translated.
 * exceptions -> `Except TErr`.  An unsupported construct never crashes: the function is emitted as `f.untranslated`.
 """
 import ast
@@ -96,6 +99,24 @@ SPECS = [
     dict(lean='powmod', py='_powmod', params=[('a', LI), ('n', I), ('modulus', LI)], ret=LI),
     dict(lean='is_irreducible', py='_is_irreducible', params=[('a', LI)], ret=B),
     dict(lean='next_irreducible', py='_next_irreducible', params=[('a', LI)], ret=LI, fuels=['fuel'], fuelparam=True),
+]
+# BinaryPolynomial: static methods on non-negative ints (bitmasks); same translator, everything is an `Int`
+BIN = 'BinaryPolynomial'
+SPECS += [
+    dict(lean='b_degree', py='_degree', klass=BIN, nocls=True, params=[('a', I)], ret=I),
+    dict(lean='b_sq', py='_sq', klass=BIN, nocls=True, params=[('a', I)], ret=I, fuels=['a.toNat + 1']),
+    dict(lean='b_mul', py='_mul', klass=BIN, nocls=True, params=[('a', I), ('b', I)], ret=I, fuels=['b.toNat + 1']),
+    dict(lean='b_mod', py='_mod', klass=BIN, nocls=True, params=[('a', I), ('b', I)], ret=I),
+    dict(lean='b_divmod', py='_divmod', klass=BIN, nocls=True, params=[('a', I), ('b', I)], ret=T(I, I)),
+    dict(lean='b_gcd', py='_gcd', klass=BIN, nocls=True, params=[('a', I), ('b', I)], ret=I,
+         fuels=['NumTh.bitLength b + 1']),
+    dict(lean='b_gcdext', py='_gcdext', klass=BIN, nocls=True, params=[('a', I), ('b', I)], ret=T(I, I, I),
+         fuels=['NumTh.bitLength b + 1']),
+    dict(lean='b_invert', py='_invert', klass=BIN, nocls=True, params=[('a', I), ('b', I)], ret=I,
+         fuels=['NumTh.bitLength b + 1']),
+    dict(lean='b_is_irreducible', py='_is_irreducible', klass=BIN, nocls=True, params=[('a', I)], ret=B),
+    dict(lean='b_next_irreducible', py='_next_irreducible', klass=BIN, nocls=True, params=[('a', I)], ret=I,
+         fuels=['fuel'], fuelparam=True),
 ]
 ORDER = [s['lean'] for s in SPECS]
 ERRORS = {'ValueError': '.valueError', 'ZeroDivisionError': '.zeroDivisionError', 'IndexError': '.indexError'}
@@ -215,6 +236,10 @@ class GFn:
             return f'(List.replicate ({b}).toNat ({self.ex(node.left.elts[0], env, [], ctx)[0]} : Int))', LI
         if ta != I or tb != I:
             raise Unsupported(f'operator {type(op).__name__} on {ta}, {tb}')
+        if isinstance(op, ast.BitXor):
+            return f'(pyXor {a} {b})', I
+        if isinstance(op, ast.BitOr):
+            return f'(pyOr {a} {b})', I
         sym = {ast.Add: '+', ast.Sub: '-', ast.Mult: '*'}.get(type(op))
         if sym:
             return f'({a} {sym} {b})', I
@@ -268,19 +293,21 @@ class GFn:
             v = self.newvar()
             pre.append(('b', v, f'invertE {x} {m}'))
             return v, I
-        if isinstance(f, ast.Attribute) and isinstance(f.value, ast.Name) and f.value.id == 'cls':
+        if isinstance(f, ast.Attribute) and isinstance(f.value, ast.Name) and f.value.id in ('cls', BIN):
             if ctx:
-                raise Unsupported(f'call of cls.{f.attr} inside a conditional expression')
+                raise Unsupported(f'call of {f.value.id}.{f.attr} inside a conditional expression')
+            if (f.value.id == BIN) != (self.spec.get('klass') == BIN):
+                raise Unsupported(f'call of {f.value.id}.{f.attr} from the other class')
             return self.call_method(f.attr, args, kws, env, pre)
         raise Unsupported(f'call of {ast.unparse(f)[:40]}')
 
     def call_method(self, pyname, args, kws, env, pre):
-        if pyname == '_intern' and len(args) == 1 and not kws and isinstance(args[0], ast.Constant) \
+        if pyname == '_intern' and self.spec.get('klass') != BIN and len(args) == 1 and not kws and isinstance(args[0], ast.Constant) \
                 and isinstance(args[0].value, int) and not isinstance(args[0].value, bool):
             v = self.newvar()
             pre.append(('b', v, f'from_int p {args[0].value}'))
             return v, LI
-        cands = [s for s in SPECS if s['py'] == pyname]
+        cands = [s for s in SPECS if s['py'] == pyname and s.get('klass') == self.spec.get('klass')]
         if not cands:
             raise Unsupported(f'call of cls.{pyname} (not a translated method)')
         # the Python parameter list of the callee, from its AST
@@ -340,6 +367,15 @@ class GFn:
 
     def cond(self, node, env, pre, ctx=None):
         """-> decidable Lean proposition, or 'True' / 'False' for statically decided tests"""
+        if isinstance(node, ast.BoolOp) and isinstance(node.op, ast.Or) and len(node.values) == 2 \
+                and all(isinstance(v, ast.Compare) and len(v.ops) == 1 for v in node.values) \
+                and isinstance(node.values[0].ops[0], ast.Is) and isinstance(node.values[1].ops[0], ast.Eq) \
+                and ast.unparse(node.values[0].left) == ast.unparse(node.values[1].left) \
+                and ast.unparse(node.values[0].comparators[0]) == ast.unparse(node.values[1].comparators[0]):
+            l_, tl = self.ex(node.values[1].left, env, pre, ctx)
+            r_, tr = self.ex(node.values[1].comparators[0], env, pre, ctx)
+            if tl == I and tr == I:          # `a is b or a == b` on ints: identity implies equality
+                return f'{l_} = {r_}'
         if isinstance(node, ast.BoolOp):
             parts = []
             cur = ctx
@@ -883,11 +919,11 @@ set_option linter.unusedVariables false
 '''
 
 
-def find_methods(tree):
-    """methods of class Polynomial"""
+def find_methods(tree, klass='Polynomial'):
+    """methods of the given class"""
     found = {}
     for node in tree.body:
-        if isinstance(node, ast.ClassDef) and node.name == 'Polynomial':
+        if isinstance(node, ast.ClassDef) and node.name == klass:
             for m in node.body:
                 if isinstance(m, ast.FunctionDef):
                     found.setdefault(m.name, []).append(m)
@@ -899,13 +935,15 @@ def translate_source(text, srcname='mpyc/gfpx.py', ns='MpycV.GfpxSrc'):
     out = [HEADER.format(src=srcname, ns=ns)]
     problems = {}
     try:
-        found = find_methods(ast.parse(text))
+        tree = ast.parse(text)
+        founds = {None: find_methods(tree), BIN: find_methods(tree, BIN)}
     except SyntaxError as exc:
-        found = {}
+        founds = {None: {}, BIN: {}}
         problems['*'] = f'syntax error: {exc}'
-    methods = {k: v[0] for k, v in found.items() if len(v) == 1}
     for spec in SPECS:
         name = spec['lean']
+        found = founds[spec.get('klass')]
+        methods = {k: v[0] for k, v in found.items() if len(v) == 1}
         try:
             nodes = found.get(spec['py'], [])
             if len(nodes) != 1:
